@@ -49,8 +49,13 @@ isfinal:加载是否结束
 class iobuffer
 {
 public:
+#if defined(WENCRY_VERIF) && defined(WENCRY_VERIF_BUF_BLOCKS)
+  static const u32_t BUF_SZ = (WENCRY_VERIF_BUF_BLOCKS);
+  static const u32_t sum = (WENCRY_VERIF_BUF_BLOCKS) * 0x10;
+#else
   static const u32_t BUF_SZ = 0x100000;
   static const u32_t sum = 0x1000000;
+#endif
 
 private:
   u8_t b[BUF_SZ][0x10];
